@@ -146,6 +146,9 @@ func scanEventsMode(r io.Reader, strictEOF bool) iter.Seq2[Event, error] {
 				continue
 			}
 			before, after, found := bytes.Cut(line, []byte{':'})
+			if !found && isEOF && strictEOF {
+				return // a line cut short by the end of the stream, not a malformed one
+			}
 			if !found {
 				yield(Event{}, fmt.Errorf("%w: malformed line in SSE stream: %q", errMalformedEvent, string(line)))
 				return
